@@ -121,6 +121,14 @@ func c10RulesBase(tier string) []Rule {
 			G(`+^len\(\(\*tor\.Terminator\)\.groupPodsByPriority\(.*\)\[.*\]\)>=1$`),
 		)},
 		core.Custom{ID: "C10.DOM4", Kind: "DOM", Run: c10Bypass},
+		// the tier gate judges EVERY waiting pod that is not force-delete eligible: a pod left out of both batches (or put into
+		// a group that is not returned) is invisible to the ordering, so a later tier is released while it is still on the node
+		// (the partition rows of C09, which needs them for "drained ⇒ nothing waiting")
+		core.Custom{ID: "C10.PART1", Kind: "PROV", Run: c09DrainPartition},
+		core.Custom{ID: "C10.PART2", Kind: "REG", Run: c09GroupsReturned},
+		ITER{ID: "C10.PART3", Fn: "(*tor.Terminator).groupPodsByPriority", Loop: `+^\(phi\(-1\|\(phi↺ \+ 1\)\) \+ 1\) < len\(\$1\)$`, Gates: gates(
+			G(`instr:^call append\(phi\(nil\|.*, &local<\[1\]\*corev1\.Pod>\[:\]\)$`),
+		)},
 		core.Custom{ID: "C10.REG1", Kind: "REG", Run: c10Groups},
 	}
 	rules = append(rules, podPredicateRules("C10")...)
